@@ -1999,7 +1999,7 @@ class StridedInterval:
             return x
 
         if isinstance(shift_amount, numbers.Number):
-            return (shift_amount, shift_amount)
+            return (round(self.bits, shift_amount), round(self.bits, shift_amount))
 
         assert type(shift_amount) is StridedInterval
 
